@@ -200,6 +200,7 @@ func NewWorld(env Env) *World {
 func (w *World) Activate() {
 	simrt.StepHook = w.step
 	simrt.LockHook = w.stepLock
+	simrt.PoolSim = true
 	simrt.MapOrderHook = w.mapOrder
 	simrt.NowHook = func() time.Time { return w.clock }
 	simrt.SleepHook = func(d time.Duration) { w.clock = w.clock.Add(d) }
@@ -217,6 +218,7 @@ func (w *World) Activate() {
 func (w *World) Deactivate() {
 	simrt.StepHook = nil
 	simrt.LockHook = nil
+	simrt.PoolSim = false
 	simrt.MapOrderHook = nil
 	simrt.NowHook = nil
 	simrt.SleepHook = nil
